@@ -277,8 +277,9 @@ def gen_cases(out, tier):
         ys = list(range(-1, shape[0] + 1))
         xs = list(range(-1, shape[1] + 1))
         pts = list(itertools.product(ys, xs))
-        if len(pts) > 60:
-            pts = rng.sample(pts, 60)
+        npts = 24 if not big else 80
+        if len(pts) > npts:
+            pts = rng.sample(pts, npts)
         for (y, x) in pts:
             tx, kind = cres(cpair, lambda: t.locate((y, x)))
             add("locate:" + kind, f"CLocate {ct} {cz(y)} {cz(x)} {tx}", (shape, spec, y, x), kind == "ok")
@@ -652,8 +653,17 @@ def run(out, tier, scratch):
         "VariableSizedTiles offsets are int32 in numpy: totals below 2^31",
     ]
     cases = gen_cases(out, tier)
-    fails, log = core.coq_eval_failures(["Base.Result", "Base.QMinMax", "Base.ZRange", "Model.TileQuery", "Model.TileQueryCases"],
-                                        "case", "check", cases, scratch, shard=250)
+    import time as _t
+    _t0 = _t.time()
+    try:
+        fails, log = core.coq_eval_failures(["Base.Result", "Base.QMinMax", "Base.ZRange", "Model.TileQuery", "Model.TileQueryCases"],
+                                        "case", "check", cases, scratch, shard=350)
+    except core.ModelEvalError as e:
+        # a coqc worker died (seen once on a heavily loaded machine): evaluate again with fewer parallel jobs
+        out.notes.append("model evaluation retried after a failed coqc worker: " + e.log[-300:])
+        fails, log = core.coq_eval_failures(["Base.Result", "Base.QMinMax", "Base.ZRange", "Model.TileQuery", "Model.TileQueryCases"],
+                                        "case", "check", cases, scratch, shard=350, tag="retry", jobs=4)
+    out.notes.append(f"case generation + model evaluation finished {_t.time() - out.t0:.1f}s after start (model evaluation {_t.time() - _t0:.1f}s)")
     detail = ""
     if fails:
         detail = "model and implementation differ on: " + " | ".join(cases[i][:1500] for i in fails[:4])
